@@ -120,7 +120,7 @@ func (i Invitation) MarshalDirect() xml.TokenReader {
 	}
 	return xmlstream.Wrap(
 		nil,
-		xml.StartElement{Name: i.XMLName, Attr: attr},
+		xml.StartElement{Name: directName, Attr: attr},
 	)
 }
 
